@@ -230,7 +230,14 @@ AddHalfPolicy ==
        Step("AddPolicy", <<Len(world.netpols) + 1>>,
             [world EXCEPT !.netpols = Append(@, NewPolicyFor(world.workloads[i], <<[peers |-> <<>>, ports |-> HalfOfAll(h)]>>))])
 
+(* two DIFFERENT pod selectors whose requirement strings concatenate to the same text ("app" + "tier=b" / "apptier=b"): *)
+(* anything that identifies a selector by the concatenation of its requirements takes them for one                        *)
+SelConcat1 == [ml |-> L1("tier", "b"), ex |-> <<[key |-> "app", op |-> "Exists", vals |-> <<>>]>>]
+SelConcat2 == MLSel(L1("apptier", "b"))
 PeerChoices(dir) == {<<>>} \cup {<<p>> : p \in PodPeerCat \cup IPPeerCat}
+                    \cup {<<PodPeer(TRUE, EmptySel, FALSE, SelConcat1), PodPeer(TRUE, EmptySel, FALSE, SelConcat2)>>,
+                          <<PodPeer(TRUE, EmptySel, FALSE, SelConcat2), PodPeer(TRUE, EmptySel, FALSE, SelConcat1)>>,
+                          <<PodPeer(FALSE, EmptySel, FALSE, SelConcat2), PodPeer(FALSE, EmptySel, FALSE, SelConcat1)>>}
 PortChoices(dir, peers) ==
   \* named ports on an egress rule that may select addresses lead to the documented fatal error
   {<<>>} \cup {<<p>> : p \in NumPortCat}
